@@ -11,7 +11,7 @@ RS = z3.RealSort()
 G = 'ghost.'
 
 # abstract locations
-LOCS = ['D1', 'D2', 'D3', 'P0', 'P1', 'FIL', 'MOM', 'OFFW', 'TRK', 'CSR', 'RFQ']
+LOCS = ['D1', 'D2', 'D3', 'P0', 'P1', 'FIL', 'MOM', 'OFFW', 'TRK', 'CSR', 'RFQ', 'RFOFF']
 COUNTERS = ['rows_time', 'rows_ps', 'rows_csr', 'rows_wake', 'rows_trk', 'rows_rf', 'rf_pending', 'rf_applied', 'final_appends', 'phase_after_loop']
 
 
@@ -86,6 +86,9 @@ def ev_apply(cx, recv, args):
         setloc(cx, 'D1', U('rf_apply', 2)(loc(cx, 'D2'), loc(cx, 'RFQ')))
         isdyn = cx.args['drfm'].null if isinstance(cx.args.get('drfm'), ObjRef) and cx.args['drfm'].null is not None else None
         dyn = z3.Bool('drfm_set')
+        # DynamicRFKickMap::apply() computes the kick offsets of THIS step from the front entry of the queue and leaves them in the
+        # map (contract dynrf.DynApply: kick_uses_front); the tracked particles are kicked with whatever offsets the map holds
+        setloc(cx, 'RFOFF', If(dyn, U('rf_kick_of', 1)(loc(cx, 'RFQ')), loc(cx, 'RFOFF')))
         setloc(cx, 'RFQ', If(dyn, U('rf_next', 1)(loc(cx, 'RFQ')), loc(cx, 'RFQ')))
         setcnt(cx, 'rf_pending', cnt(cx, 'rf_pending') + If(dyn, I(1), I(0)))
         setcnt(cx, 'rf_applied', cnt(cx, 'rf_applied') + If(dyn, I(1), I(0)))
@@ -98,7 +101,12 @@ def ev_apply(cx, recv, args):
 
 
 def ev_apply_to_all(cx, recv, args):
-    setloc(cx, 'TRK', U('track_' + recv_name(recv), 2)(loc(cx, 'TRK'), loc(cx, 'OFFW') if recv_name(recv) == 'wm' else z3.RealVal(0)))
+    """applyToAll(trackme): every particle is moved by the map's applyTo, which reads the map's current offsets (wake map: the
+    wake potential of this step; RF map: the offsets left by its last apply()) or, for the charge-weighted Fokker-Planck model,
+    the map's input grid (contracts sm.KickMapApplyTo / sm.FokkerPlanckApplyTo)"""
+    nm = recv_name(recv)
+    src = {'wm': 'OFFW', 'rfm': 'RFOFF', 'drfm': 'RFOFF', 'fpm': 'D3'}.get(nm)
+    setloc(cx, 'TRK', U('track_' + ('rfm' if nm == 'drfm' else nm), 2)(loc(cx, 'TRK'), loc(cx, src) if src else z3.RealVal(0)))
 
 
 def ev_wake_update(cx, recv, args):
@@ -206,7 +214,7 @@ class MainLoop(Contract):
     tu_filter = 'main'
     aux_tus = [('src/main.cpp', 'vfps::')]
     params = ['argc', 'argv']
-    tags = {'C05', 'C10', 'C12', 'C14', 'C19'}
+    tags = {'C05', 'C10', 'C12', 'C14', 'C15', 'C19'}
     slice_from = 'updatetime'
     canary = True
     property_hints = True      # the per-iteration reference term IS the statement of C12/C05 (step result independent of the output block)
@@ -257,8 +265,10 @@ class MainLoop(Contract):
         d3 = U('drift_apply', 1)(d1b)                                       # 5. drift
         d1c = U('fp_apply', 1)(d3)                                          # 6. damping/diffusion
         p0 = U('xproj', 1)(d1c)                                             # 7. projection for the next step
-        trk = U('track_fpm', 2)(U('track_drm', 2)(U('track_rfm', 2)(U('track_wm', 2)(TRK, offw), z3.RealVal(0)), z3.RealVal(0)), z3.RealVal(0))
-        return {'D1': d1c, 'D2': d2, 'D3': d3, 'P0': p0, 'OFFW': offw, 'TRK': trk}
+        dyn = z3.Bool('drfm_set')
+        rfoff = If(dyn, U('rf_kick_of', 1)(RFQ), loc(cxb, 'RFOFF'))        # the RF kick of THIS step (C15: particles follow the charge)
+        trk = U('track_fpm', 2)(U('track_drm', 2)(U('track_rfm', 2)(U('track_wm', 2)(TRK, offw), rfoff), z3.RealVal(0)), d3)
+        return {'D1': d1c, 'D2': d2, 'D3': d3, 'P0': p0, 'OFFW': offw, 'TRK': trk, 'RFOFF': rfoff}
 
     def _inv(self, cx):
         return [('rows.csr', cnt(cx, 'rows_csr') == cnt(cx, 'rows_time')),
@@ -280,7 +290,7 @@ class MainLoop(Contract):
     def _hints(self, cx, cxb):
         ref = self.reference(cx, cxb)
         out = []
-        for l in ('OFFW', 'D2', 'D3', 'D1', 'P0', 'TRK'):
+        for l in ('OFFW', 'D2', 'D3', 'D1', 'P0', 'TRK', 'RFOFF'):
             out.append((f'step.{l}', loc(cx, l) == ref[l]))
         out.append(('step.counter', cx.v('simulationstep') == cxb.v('simulationstep') + 1))
         return out
